@@ -32,7 +32,7 @@ ASSUMPTIONS = ['column mnemonics distinct within a table; byte cells <= 255 byte
                'entry block type 2 (DSB type) only 0: the reader documents that it cannot read other types',
                'a zero-length text cell may be read back as None (no value) or b\'\'']
 SHARDS = {'quick': 4, 'thorough': 16}
-REQUIRED_CLASSES = {'table-duplicate-row': 1, 'table-float-cell': 1, 'table-int16-cell': 1, 'table-int32-cell': 1,
+REQUIRED_CLASSES = {'dfsr-channel-with>=128-samples': 1, 'table-duplicate-row': 1, 'table-float-cell': 1, 'table-int16-cell': 1, 'table-int32-cell': 1,
                     'table-empty': 1, 'table-spans-physical-records': 1, 'dfsr-odd-entry-set': 1, 'dfsr-dipmeter': 1, 'dfsr-zero-size-block-over-default': 1,
                     'cell-255-bytes': 1}
 
@@ -198,7 +198,8 @@ def check_table(case, cc):
 def dfsr_models(draw):
     blocks = draw(G.entry_block_models(zero_size=True))
     n = draw(st.integers(1, 8))
-    dsbs = [draw(G.dsb_models()) for _ in range(n)]
+    # (one channel in six with up to 255 samples per frame: the sample count is one unsigned byte of the channel block)
+    dsbs = [draw(G.dsb_models(max_samples=255, max_bursts=1) if draw(st.integers(0, 5)) == 0 else G.dsb_models()) for _ in range(n)]
     return {'blocks': blocks, 'dsbs': dsbs, 'pr_len': draw(st.one_of(st.integers(16, 64), st.integers(16, 4096)))}
 
 
@@ -245,6 +246,7 @@ def check_dfsr(case, cc):
     odd = (len(ref_eb) - (4 if ref_eb[-4:-1] == bytes([0, 1, 66]) else 3)) % 2 == 1
     odd = ref_eb[-4:-1] == bytes([0, 1, 66]) and len(ref_eb) >= 4 and ref_eb[-4] == 0 and ref_eb[-3] == 1
     cc.cls('dfsr-odd-entry-set', odd)
+    cc.cls('dfsr-channel-with>=128-samples', any(d['samples'] >= 128 for d in model['dsbs']))
     cc.cls('dfsr-dipmeter', any(d['rc'] in (130, 234) for d in model['dsbs']))
     cc.cls('dfsr-all-blocks', len(model['blocks']) >= 14)
     cc.cls('dfsr-no-blocks', not model['blocks'])
